@@ -38,4 +38,10 @@ pub trait XNativeValue: Debug + RuntimeEquatable {
     fn full_size(&self) -> usize {
         self.static_size() + self.dyn_size()
     }
+
+    /// bytes of payload the value certainly holds, measured independently of `dyn_size`
+    #[cfg(xray_verif)]
+    fn verif_payload(&self) -> usize {
+        0
+    }
 }
